@@ -6,18 +6,19 @@ From Coq Require Import List Bool NArith Lia.
 From PFL Require Import Base.Loop Base.ListSet Base.Closure Spec.Enfa Model.Enfa Proofs.EnfaAccepts.
 Import ListNotations.
 
-Definition labels (A : enfa) : list N :=
+Definition labels {Q} (A : enfa Q) : list N :=
   flat_map (fun t => match snd (fst t) with Some a => [a] | None => [] end) (e_delta A).
 
-Definition pairT := (list N * list N)%type.
-
 Section Equiv.
-  Variables A B : enfa.
+  Context {Q1 Q2 : Type} `{EqDec Q1} `{EqDec Q2} `{Canon Q1} `{Canon Q2}.
+  Variable A : enfa Q1.
+  Variable B : enfa Q2.
+  Definition pairT := (list Q1 * list Q2)%type.
 
   Definition sigma : list N := dedup (labels A ++ labels B).
-  Definition pstart : pairT := (canon (eclose A (e_starts A)), canon (eclose B (e_starts B))).
+  Definition pstart : pairT := (norm (eclose A (e_starts A)), norm (eclose B (e_starts B))).
   Definition psucc (p : pairT) : list pairT :=
-    map (fun a => (canon (dstep A (fst p) a), canon (dstep B (snd p) a))) sigma.
+    map (fun a => (norm (dstep A (fst p) a), norm (dstep B (snd p) a))) sigma.
   Definition pair_ok (p : pairT) : bool := Bool.eqb (is_final_set A (fst p)) (is_final_set B (snd p)).
 
   Definition enfa_equiv (n : nat) : option bool :=
@@ -35,7 +36,7 @@ Section Equiv.
       | [] => None
       | (p, w) :: rest =>
         if pair_ok p then
-          let nexts := map (fun a => ((canon (dstep A (fst p) a), canon (dstep B (snd p) a)), a :: w)) sigma in
+          let nexts := map (fun a => ((norm (dstep A (fst p) a), norm (dstep B (snd p) a)), a :: w)) sigma in
           let fresh := filter (fun pw => negb (mem (fst pw) seen)) nexts in
           find_diff f (rest ++ fresh) (map fst fresh ++ seen)
         else Some (rev w)
